@@ -52,8 +52,7 @@ def sem_source_disarmed(fn, allf, adts):
     return True
 
 
-def run(tier):
-    ck = report.Check("C10", tier, level="other")
+def check_all(ck, tier):
     f = facts.cfg_cglue()
     ck.unit("cglue lib: arc.rs")
 
@@ -330,6 +329,11 @@ def run(tier):
         if ck.require(a in probes and b in probes, "layout probes %s/%s" % (a, b)):
             r = c04.same_layout(probes[a]["shape"], probes[b]["shape"])
             ck.ob("G-same-layout", a, r is None, "CArc and CArcSome layouts differ: %s" % r)
+
+
+def run(tier):
+    ck = report.Check("C10", tier, level="other")
+    check_all(ck, tier)
     return ck.finish(
         "ledger classification of every ownership-bypassing site in arc.rs (constructors leak one reference and store c_clone/c_drop at their own T; "
         "c_clone adds exactly one, c_drop releases exactly one, only for Some), Clone/Drop reach the count only through the stored functions, every "
